@@ -88,7 +88,8 @@ def fp_part(part):
                                 o.start.t if o.start is not None else None, o.end.t if o.end is not None else None,
                                 getattr(getattr(o, "tie_next", None), "id", None),
                                 str(getattr(o, "symbolic_duration", None)) if False else None,
-                                getattr(o, "number", None), getattr(o, "beats", None), getattr(o, "fifths", None)))
+                                getattr(o, "number", None), getattr(o, "beats", None), getattr(o, "fifths", None),
+                                tuple(len(getattr(o, a, None) or []) for a in ("slur_starts", "slur_stops", "tuplet_starts", "tuplet_stops"))))
         out.append(row)
     out.append(("q", list(part._quarter_times), list(part._quarter_durations), part._use_musical_beat))
     return out
@@ -144,6 +145,7 @@ def make_part_entry(entry):
         part.add(S.Rest(id="r", voice=1, staff=1), 0, 1)
         if entry == "unfold":
             part.add(S.Repeat(), 0, bar)
+            part.add(S.Slur(start_note=a1, end_note=a2), on_a, on_a + d_a + 1)
         before = fp_part(part)
 
         def call():
